@@ -55,7 +55,42 @@ pub fn run_chaos(s: &Streams) -> CaseOut {
     cfg.expr.random = dch.chance(2, 3);
     cfg.maybe_unbound_refs = dch.chance(2, 3);
     cfg.counter_rebind = dch.chance(1, 2);
-    let built = gen_case(&mut Ch::new(&s[0]), &cfg);
+    let mut built = gen_case(&mut Ch::new(&s[0]), &cfg);
+    // In half of the cases one statement that cannot be evaluated whatever the values are is
+    // put at a random TOP-LEVEL position: it is executed unconditionally once everything
+    // before it has run. A run that reaches the end of iteration must then contain an error
+    // item. (This oracle needs no reference values, so it cannot be disturbed by changes that
+    // only move values around.)
+    let mut planted: Option<&'static str> = None;
+    if dch.chance(1, 2) {
+        use crate::model::*;
+        let at = dch.upto(built.prog.stmts.len() + 1);
+        let (kind, stmts): (&'static str, Vec<Stmt>) = match dch.upto(5) {
+            0 => ("division by zero", vec![Stmt::Let("hz".into(), Expr::bin(BinOp::Div, Expr::lit(7), Expr::lit(0)))]),
+            1 => ("remainder by zero", vec![Stmt::Let("hz".into(), Expr::bin(BinOp::Rem, Expr::bin(BinOp::Add, Expr::lit(3), Expr::lit(4)), Expr::lit(0)))]),
+            2 => ("function that is not implemented", vec![Stmt::Let("hz".into(), Expr::SignExt(Box::new(Expr::lit(4)), Box::new(Expr::lit(9))))]),
+            3 => (
+                "variable never assigned on the executed path",
+                vec![
+                    Stmt::While(Expr::lit(0), vec![Stmt::Let("nv".into(), Expr::lit(1))]),
+                    Stmt::Let("hz".into(), Expr::var("nv")),
+                ],
+            ),
+            _ => (
+                "variable never assigned on the executed path",
+                vec![
+                    Stmt::Loop("zz".into(), Expr::lit(0), vec![Stmt::While(Expr::lit(1), vec![Stmt::Let("nv".into(), Expr::lit(1))])]),
+                    Stmt::While(Expr::lit(0), vec![Stmt::Let("nv".into(), Expr::lit(2))]),
+                    Stmt::Let("hz".into(), Expr::bin(BinOp::Add, Expr::var("nv"), Expr::lit(1))),
+                ],
+            ),
+        };
+        for (k, st) in stmts.into_iter().enumerate() {
+            built.prog.stmts.insert(at + k, st);
+        }
+        built.analysis = analyse(&built.prog);
+        planted = Some(kind);
+    }
     let text = built_text(&built);
     let palette = if dch.chance(1, 2) { Palette::Boundary } else { Palette::Small };
     let mut spec = gen_spec(
@@ -134,55 +169,35 @@ pub fn run_chaos(s: &Streams) -> CaseOut {
             StaticRun::NotStatic(_) => {}
         }
     }
-    // hazards must surface as error items
+    // the planted, unconditionally executed hazard must surface as an error item
+    if let Some(kind) = planted {
+        out.class("planted-unconditional-hazard");
+        let any_error = real.ctor.is_some() || real.items.iter().any(|i| !matches!(i, RealItem::Row(_)));
+        if real.ended && !any_error {
+            out.fail(
+                "c10:hazard-not-an-error-item",
+                format!(
+                    "the program executes a top-level `let hz = ...` that cannot be evaluated ({kind}) unconditionally, yet the run reached the end of iteration after {} rows without any error item",
+                    real.items.len()
+                ),
+            );
+            return out;
+        }
+        out.class_if(real.items.iter().any(|i| matches!(i, RealItem::RuntimeErr(_))), "planted-hazard-surfaced");
+    }
+    // which hazards were reached (reference interpreter replaying the crate's own draw log;
+    // used for the evidence histogram only, nothing is asserted from it)
     let t = ri::run(
         &built.prog,
         &built.sigs,
         &spec,
         &ri::RiOpts { counter_from_env: true, draws: Some(real.draws.clone()), row_cap: 300, ..Default::default() },
     );
-    let mut hazard_seen = false;
-    if real.ctor.is_none() && t.ctor_missing.is_empty() && t.ctor_fail.is_none() {
-        for (i, item) in t.items.iter().enumerate() {
-            let Some(r) = real.items.get(i) else { break };
-            match (item, r) {
-                (ri::RiItem::Row(a), RealItem::Row(b)) => {
-                    // the prediction of a hazard is only trusted while reference and crate
-                    // agree on everything before it
-                    if row_diff(a, b, Projection::ALL).is_some() {
-                        out.class("diverged-before-hazard");
-                        break;
-                    }
-                }
-                (ri::RiItem::Hazard { hazard, .. }, r) => {
-                    out.class(hazard.class());
-                    match hazard {
-                        // replay artefacts, not hazards of the program
-                        ri::Hazard::DrawLogExhausted | ri::Hazard::DrawMismatch(_) => {}
-                        ri::Hazard::RandomBound(_) => {
-                            hazard_seen = true;
-                            // an error item or a value, never a panic (checked above)
-                        }
-                        // reading a Z/X answer is an error item by C04 / C14, not by C10's list
-                        ri::Hazard::ZxRead(_) => {
-                            hazard_seen = true;
-                        }
-                        h => {
-                            hazard_seen = true;
-                            if !matches!(r, RealItem::RuntimeErr(_)) {
-                                out.fail(
-                                    format!("c10:{}-not-an-error-item", h.class()),
-                                    format!("next() #{i}: {h:?} must surface as an error item, got {}", r.short()),
-                                );
-                                return out;
-                            }
-                        }
-                    }
-                    break;
-                }
-                // any other disagreement is some other property's business
-                _ => break,
-            }
+    let mut hazard_seen = planted.is_some();
+    if let Some(ri::RiItem::Hazard { hazard, .. }) = t.items.last() {
+        if !matches!(hazard, ri::Hazard::DrawLogExhausted | ri::Hazard::DrawMismatch(_)) {
+            out.class(hazard.class());
+            hazard_seen = true;
         }
     }
     out.class_if(real.items.iter().any(|i| matches!(i, RealItem::DriverErr(_))) || matches!(real.ctor, Some(RealItem::DriverErr(_))), "driver-error");
@@ -206,7 +221,7 @@ impl Property for C10 {
         }
     }
     fn required_classes(&self) -> Vec<&'static str> {
-        vec!["hazard:divzero", "hazard:unresolved", "hazard:zxread", "hazard:randombound", "hazard:signext", "width>=63", "driver-error", "static-run", "random", "declare"]
+        vec!["hazard:divzero", "hazard:unresolved", "hazard:zxread", "hazard:randombound", "hazard:signext", "width>=63", "driver-error", "static-run", "random", "declare", "planted-unconditional-hazard", "planted-hazard-surfaced"]
     }
     fn check_raw(&self, _kind: &str, data: &[u8]) -> Option<(String, String)> {
         crate::fuzzglue::run_structured_kv(data)
